@@ -84,7 +84,8 @@ func File(vfs fs.FS, filename string, src interface{}) (text []byte, changed boo
 		return text, false, nil
 
 	default:
-		panic("unreachable")
+		// neither the extension nor the content tells which language this is
+		return nil, false, fmt.Errorf("format: cannot detect the language of %s", filename)
 	}
 }
 
